@@ -119,5 +119,36 @@ def run(ctx: core.Ctx) -> int:
     ctx.oblige("GATE-SITES", f"{F}:ExtendedKalmanFilter", f"{len(others)} direct eigen/symmetry tests in the filter methods", not others, file=F,
                func="ExtendedKalmanFilter", construct="extra gates:" + ";".join(o[0] for o in others),
                msg=f"the filter tests covariances outside assert_valid_covariance: {others}")
+    # ---- C++ side: the same structural clauses for the generated filter
+    from .. import cppforms, genlayout, witness
+    ctx.rule("Q-INIT", "every entry of the generated noise matrices is assigned (the declared matrices are uninitialised): Q, M are the configured, "
+                       "symmetric matrices")
+    g = genlayout.GenInfo(ctx, prog)
+    scenarios.transfer(g.it, ctx, rules={"LAY-COVIDX"}, files={genlayout.CPPF})
+    ctx.floor("Q-INIT", scenarios.count(g.it, "LAY-COVIDX"), 2, "sensor covariance assignment obligations")
+    from .. import keymat
+    cmod = prog.modules["cpp"]
+    ccls = core.need(core.find_class(cmod, "ExtendedKalmanFilter"), "cpp.ExtendedKalmanFilter")
+    cfn = core.need(core.find_func(ccls, "_translate_control_covariance"), "cpp._translate_control_covariance")
+    ctx.rule("LAY-KEYMAT", "control covariance entries (i, j) and (j, i) both assigned from the name-keyed table")
+    keymat.check_function(ctx, genlayout.CPPF, "ExtendedKalmanFilter._translate_control_covariance", cfn,
+                          [a.arg for a in cfn.args.args if a.arg != "self"][0])
+    w = witness.Witness(ctx)
+    v = witness.Valuation(True, True)
+    gf = cppforms.generated_filter_forms(ctx, w, v)
+    tpl = "py/formak/templates/process_model.cpp"
+    if "process" in gf:
+        evc, _ = gf["process"]
+        rets = [e for e in evc.events if e["kind"] == "return" and isinstance(e["value"], dict)]
+        for e in rets:
+            form = e["value"].get("covariance")
+            bad = True
+            if isinstance(form, MatForm):
+                bad = any(not (c > 0 and len(wd) == 3 and wd[1][0] == "A" and wd[1][1] in ("P", "M") and wd[0][0] == "A" and wd[2][0] == "A"
+                               and wd[0][1] == wd[2][1] and wd[0][2] is False and wd[2][2] is True) for wd, c in form.p.items())
+            ctx.oblige("PSD-FORM", f"{tpl} [{v.tag}]", f"C++ predicted covariance = {form!r}", not bad, file=tpl, func="process_model",
+                       construct="congruence form (C++)", msg=f"the generated C++ prediction {form!r} is not a sum of congruences X.A.X^T")
+    else:
+        ctx.error(f"{tpl}: generated process_model body not found in the witness")
     return core.finish(ctx, explanation="dataflow queries on the validity gate + E3 congruence form of the prediction covariance "
                                         "(structural, necessary clauses only)", **META)
